@@ -293,6 +293,30 @@ def _post_numba_templates(module):
     module.AttributeTemplate.resolve = wrap(module.AttributeTemplate.resolve)
 
 
+@_shim("jax.Array.device_buffer",
+       "jax >= 0.4.2x removed Array.device_buffer; the binding's NumpyArray.from_jax / Index.from_jax read "
+       "array.device_buffer.device().platform, so a minimal object with device() is put back on ArrayImpl")
+def _post_jax_array(module):
+    cls = getattr(module, "ArrayImpl", None)
+    if cls is None:
+        return
+    prop = cls.__dict__.get("device_buffer")
+    if prop is None or getattr(prop, "_lanep", False):
+        return
+
+    class _DeviceBuffer(object):
+        def __init__(self, array):
+            self._array = array
+
+        def device(self):
+            return sorted(self._array.devices(), key=lambda d: d.id)[0]
+
+    class _Prop(property):
+        _lanep = True
+
+    cls.device_buffer = _Prop(lambda self: _DeviceBuffer(self))
+
+
 @_shim("llvmlite.llvmpy.core.Type",
        "llvmlite >= 0.39 removed the llvmpy compatibility layer; the repo's Numba lowering uses "
        "llvmlite.llvmpy.core.Type.int/.pointer, which are re-provided on top of llvmlite.ir")
@@ -366,6 +390,7 @@ def _post_llvmlite(module):
 
 _POST_EXEC = {"awkward._connect._numpy": _post_connect_numpy, "pyarrow.parquet": _post_pyarrow_parquet,
               "llvmlite": _post_llvmlite, "numba.core.typing.templates": _post_numba_templates,
+              "jax._src.array": _post_jax_array,
               "numba.core.entrypoints": _post_numba_entrypoints, "numba.core.cgutils": _post_numba_cgutils}
 
 
@@ -447,6 +472,9 @@ def load(variant="plain", verbose=False):
             return real(package_or_requirement, resource_name)
 
         pkg_resources.resource_filename = resource_filename
+    SHIMS["awkward._kernel_signatures"] = (
+        "generated by dev/generate-kernel-signatures.py at build time and absent from a source checkout: served from "
+        "the vbuild gen/ directory (generated from the same kernel-specification.yml as the built kernels)")
     SHIMS["pkg_resources.resource_filename"] = (
         "setuptools >= 81 dropped pkg_resources and the repo is not pip-installed: resource_filename('awkward', "
         "'libawkward*.so') is answered with the vbuild output directory (the library instance the bridge uses)")
